@@ -116,7 +116,13 @@ def gen_one(world, tier, rng, faults=True):
   n = rng.randint(3, 12 if tier == 'thorough' else 9)
   for i in range(n):
     r = rng.random()
-    if r < 0.35:
+    if r < 0.07:
+      lit_ = rng.choice([[gen_literal(rng, 2), gen_literal(rng, 2)],
+                         {'a': gen_literal(rng, 2), 'b': gen_literal(rng, 2)},
+                         [gen_literal(rng, 2)]])
+      pending.append({'set': rng.randrange(10 ** 6), 'lit': repr(lit_), 'src': 1,
+                      'via': rng.choice(['dict', 'str']), 'container': 1})
+    elif r < 0.35:
       pending.append({'set': rng.randrange(10 ** 6), 'lit': repr(gen_literal(rng)), 'src': 1,
                       'via': rng.choice(['dict', 'str'])})
     elif r < 0.55 and rng.random() < 0.3 and any(
@@ -177,7 +183,8 @@ def gen_one(world, tier, rng, faults=True):
     bad = frng.choice([
         'bogus:thing', 'set:no.such.path.here=1', 'set:z=not_a_literal',
         f'config:base_gen({spec!r})', 'config:base_gen(1 +', 'fiddler:no_such_fiddler',
-        'set:z', 'fiddler:fid_scale(*[1])'])
+        'set:z', 'fiddler:fid_scale(*[1])', 'set:__MISSING_DICT_PATH__',
+        'set:__MISSING_DICT_PATH__'])
     pos = frng.randrange(len(steps))
     steps.insert(pos + 1, {'op': 'parse', 'ds': [bad], 'bad': True})
     if frng.random() < 0.5:
@@ -517,6 +524,17 @@ def run(case):
           if not paths:
             continue
           path = paths[d['set'] % len(paths)]
+          if d.get('container'):
+            # the override replaces the whole CONTAINER that holds the chosen
+            # leaf (element overrides before and after it address its entries)
+            cands = [p_ for p_ in paths if p_.endswith(']')]
+            if not cands:
+              continue
+            path = cands[d['set'] % len(cands)]
+            path = path[:path.rindex('[')]
+            if under_tuple(model, path) or not path:
+              continue
+            bump(probes, 'set_whole_container')
           lit = d['lit'] if d.get('src') else repr(d['lit'])   # (source text: JSON-stable)
           directive = f'set:{path}={lit}'
           try:
@@ -528,6 +546,16 @@ def run(case):
             bump(probes, 'set_on_nested_path')
           strs.append(directive)
         elif st.get('bad'):
+          if d == 'set:__MISSING_DICT_PATH__':
+            # an override that crosses a MISSING key of an existing dict and is
+            # refused only afterwards (unparsable literal)
+            d = 'set:z=not_a_literal'
+            if model is not None:
+              for p_ in printing.as_dict_flattened(model):
+                if "['" in p_ and not under_tuple(model, p_[:p_.index("['")]):
+                  d = "set:" + p_[:p_.index("['")] + "['zz_missing']['k']=1x"
+                  bump(probes, 'refused_override_across_missing_key')
+                  break
           expect_raise = d
           strs.append(d)
           break
